@@ -116,7 +116,7 @@ func (d *decoder) decodeArray(v value, elemType reflect.Type, decodeElem decodeF
 		v.setArray(array{})
 	} else {
 		a := makeArray(elemType, int(n))
-		for i := 0; i < int(n) && d.remain > 0; i++ {
+		for i := 0; i < int(n) && !d.done(); i++ {
 			decodeElem(d, a.index(i))
 		}
 		v.setArray(a)
@@ -131,7 +131,7 @@ func (d *decoder) decodeCompactArray(v value, elemType reflect.Type, decodeElem 
 		v.setArray(array{})
 	} else {
 		a := makeArray(elemType, int(n-1))
-		for i := 0; i < int(n-1) && d.remain > 0; i++ {
+		for i := 0; i < int(n-1) && !d.done(); i++ {
 			decodeElem(d, a.index(i))
 		}
 		v.setArray(a)
@@ -447,7 +447,7 @@ func structDecodeFuncOf(typ reflect.Type, version int16, flexible bool) decodeFu
 			// for details of tag buffers in "flexible" messages.
 			n := int(d.readUnsignedVarInt())
 
-			for i := 0; i < n && d.remain > 0; i++ {
+			for i := 0; i < n && !d.done(); i++ {
 				tagID := int(d.readUnsignedVarInt())
 				size := int(d.readUnsignedVarInt())
 
